@@ -22,7 +22,7 @@ var challengeScalarDeps = []Rule{RuleG6, RuleD10, RuleD9([][4]string{{"bandersna
 var bvectorDeps = []Rule{RuleD4("bvector"), RuleB1, RuleO1}
 
 // the precomputed barycentric tables that DivideOnDomain and the out-of-domain b-vector read
-var weightsDeps = []Rule{RuleM7, RuleQ3}
+var weightsDeps = []Rule{RuleM7, RuleM12, RuleQ3}
 
 // the IPA vector helpers (inner product, folds, splits, MSM wrappers) every IPA proof and check runs through
 var vectorDeps = []Rule{RuleV, RuleV5, RuleZ2}
@@ -55,29 +55,29 @@ func init() {
 	Props["C20"] = spec("static decision of the synchronisation clauses of the executor and of the structure of its range arithmetic (DESIGN 4 C20, 10.4): Add before each spawn, one spawn per iteration, work called exactly once with per-iteration range cells, Done after work, Wait post-dominating entry (G7), no parent store to captured cells (G5), callers size result channels by the same value they pass as the worker limit (G3). The range arithmetic is decided on the structure of the task loop: a difference-bound analysis shows end - start >= 1 for every range handed to work (I1); one iteration executed symbolically on every path shows that the first range starts at 0, each range ends where the next starts, lengths are base or base+1, the longer ranges are handed out E times and T*base + E = n with E a division remainder or 0 (S2) - together: disjoint contiguous cover of [0,n) for n >= 0 and a worker count >= 1. That at most min(n,m) invocations are started is decided only as far as G7's task-count clause goes.",
 		RuleG7, RuleG5, RuleG3, RuleI1, RuleI2, RuleS2)
 	Props["C03"] = spec("static decision of the structural determinism/conformance clauses (DESIGN 4 C03): the IPA vector helpers (V1-V4), the precomputed weight tables (M7), the table-based commitment (M5, M9, K7) and Cmp (O1) as shared mechanisms; Fiat-Shamir labels and absorb order equal the specification on both sides (F1,F2), openings absorbed with their own index (F4), canonical encodings absorbed and transcript chaining (F7), serialisation layout D|L|R|a with canonical encoders (D5), results merged in completion order only by commutative-associative combiners, every worker result merged exactly once (G4,G2,G3), no call writes state a later call reads (W2,W3). Byte-for-byte equality with an independent implementation is not decided.",
-		bundle([]Rule{RuleF1F2(), RuleF4(), RuleF7, RuleD5, RuleG4, RuleG2, RuleG3, RuleG5, RuleW2(30), RuleW3, RulePW, RuleG1In("BatchNormalize", 1), RuleU1, RuleW1(nameHas("banderwagon.BatchNormalize", "multiproof.CreateMultiProof"), 3), RuleW4}, challengeScalarDeps, bvectorDeps, weightsDeps, vectorDeps, commitDeps)...)
+		bundle([]Rule{RuleF1F2(), RuleF4(), RuleF7, RuleD5, RuleQ4, RuleX1, RuleG4, RuleG2, RuleG3, RuleG5, RuleW2(30), RuleW3, RulePW, RuleG1In("BatchNormalize", 1), RuleU1, RuleW1(nameHas("banderwagon.BatchNormalize", "multiproof.CreateMultiProof"), 3), RuleW4}, challengeScalarDeps, bvectorDeps, weightsDeps, vectorDeps, commitDeps)...)
 	Props["C01"] = spec("static decision of the structural completeness clauses (DESIGN 4 C01): the IPA vector helpers (V1-V4), the precomputed weight tables (M7: every position written), the table-based commitment (M5, M9, K7) and Cmp (O1) as shared mechanisms; prover and verifier replay the specified Fiat-Shamir schedule (F1,F2); openings processed as aligned triples with their own index (F4); shape checks dominate (F6); the worker split covers every opening: ceil-division batches, clipped ranges, one receive per worker, no variable captured by a goroutine is assigned again by its parent (S1,G2,G3,G5); every array is indexed by an index of its own domain, in particular the inverse denominators by compacted position (M6). The algebra of the protocol is not decided.",
-		bundle([]Rule{RuleF1F2(), RuleF4(), RuleF6, RuleF7, RuleS1, RuleG2, RuleG3, RuleG5, RuleM6, RulePW, RuleG1In("BatchNormalize", 1), RuleU1, RuleW1(nameHas("banderwagon.BatchNormalize", "multiproof.CreateMultiProof"), 3), RuleW4}, challengeScalarDeps, bvectorDeps, weightsDeps, vectorDeps, commitDeps)...)
+		bundle([]Rule{RuleF1F2(), RuleF4(), RuleF6, RuleF7, RuleS1, RuleQ4, RuleX1, RuleG2, RuleG3, RuleG5, RuleM6, RulePW, RuleG1In("BatchNormalize", 1), RuleU1, RuleW1(nameHas("banderwagon.BatchNormalize", "multiproof.CreateMultiProof"), 3), RuleW4}, challengeScalarDeps, bvectorDeps, weightsDeps, vectorDeps, commitDeps)...)
 	Props["C04"] = spec("static decision of the structural clauses (DESIGN 4 C04): the IPA vector helpers hand on whole vectors, traverse every index, split into complementary halves and fold by the stated formula (V1-V4); fr.Element.Cmp is right on all 81 limb orderings (O1); the barycentric weight table is completely written and read at the writer's positions (M7, verifier part); the in/out-of-domain switch is taken exactly on Cmp(evalPoint, 255) = +1 with the bound initialised to VectorLength-1 and never written (D4,W2); prover and verifier derive b from computeBVector(ic, evalPoint), unit vector indexed by the regular-form value (B1); acceptance provenance and shape checks of the IPA verifier (F5,F6). That the barycentric coefficients interpolate and that a wrong result is rejected are not decided.",
-		RuleD4("bvector"), RuleB1, RuleO1, RuleW2(30), RuleF5, RuleF6, RuleM7Verifier, RuleE1, RuleV, RuleV5, RuleZ2)
+		RuleD4("bvector"), RuleB1, RuleO1, RuleW2(30), RuleF5, RuleF6, RuleM7Verifier, RuleM12Verifier, RuleE1, RuleV, RuleV5, RuleZ2)
 	Props["C05"] = spec("static decision of the narrow structural clauses (DESIGN 4 C05): the mixed addition used by the table walk is the unified law in the sense that X, Y, Z depend on the curve constant D and both operands (K7); tables built from the published SRS, Commit delegates to them, table i from point i (P1); scalar i meets table i (M1); w-1 table indexes guarded by w != 0 on the same value (M5); window sizes and top-window carry bound, protocol sizes (K6); equal-chunk slicings cover their base (R2); tables/config never written after construction, scalar argument a copy (W1,W3). Everything numeric (table contents, recoding sums, group law, linearity) is NOT decided. The parallel executor these routines run on is checked with them: join discipline, non-empty ranges, divisors, and the partition of [0,n) (G7, I1, I2, S2).",
 		RuleP1, RuleM1b, RuleM5, RuleM9, RuleM11, RuleR2, RuleG7, RuleI1, RuleI2, RuleS2, RuleK6, RuleK7, RuleW3, RuleW1(nameHas("banderwagon.MSMPrecomp", "banderwagon.PrecompPoint", "banderwagon.NewPrecomp", "ipa.IPAConfig", "batchToExtendedPointNormalized", "bandersnatch.ExtendedAddNormalized", "bandersnatch.PointExtendedNormalized"), 6))
 	Props["C07"] = spec("static decision of the structural clauses (DESIGN 4 C07): Equal is never true when either side is all-zero, on all 16 outcomes (E1); it compares the cross products {p.X*other.Y, p.Y*other.X} (E4) and writes nothing (W1); Bytes/ElementsToBytes negate x exactly when y is not lexicographically largest and encode that x, decoders request the largest root (E2,D2); serialised coordinates are the affine ones (E3); the multi-exponentiation wrappers write their result on every successful path, so they cannot hand back an untouched all-zero destination (D9). Injectivity on the group and behaviour over operation histories are not decided.",
-		RuleE1, RuleE2E3, RuleD2D3, RuleD11(atomicDecoders), RuleD9(msmOutputs), RuleG1In("banderwagon", 1), RuleU1, RuleW1(nameHas("banderwagon.BatchNormalize", "banderwagon.Element).Equal", "banderwagon.Element).Bytes", "banderwagon.ElementsToBytes", "banderwagon.Element).IsOnCurve"), 3))
+		RuleE1, RuleE2E3, RuleD2D3, RuleD11(atomicDecoders), RuleD9(msmOutputs), RuleR2, RuleG1In("banderwagon", 1), RuleU1, RuleW1(nameHas("banderwagon.BatchNormalize", "banderwagon.Element).Equal", "banderwagon.Element).Bytes", "banderwagon.ElementsToBytes", "banderwagon.Element).IsOnCurve"), 3))
 	Props["C08"] = spec("static decision of the structural clauses (DESIGN 4 C08): each wrapper delegates to the matching gnark operation on the matching operands, ScalarMul passes the regular-form integer, Sub negates into a private copy (L1); operands are never written, receivers only (W1); Generator/Identity never written and Identity = (0,1,1) (W2,K6); no routine reads an operand coordinate after overwriting the same coordinate of an aliased receiver (W5). The group law itself is not decided.",
 		RuleL1, RuleW5, RuleTrust, RuleW2(30), RuleK6, RuleW1(nameHas("banderwagon.Element).", "bandersnatch.ExtendedAddNormalized", "bandersnatch.PointExtendedNormalized", "bandersnatch.PointExtendedFromProj"), 20))
 	Props["C11"] = spec("static decision of the structural clauses (DESIGN 4 C11): orientation X/Y in both variants, only X and Y of the element are read (no Z, no sign), once each (N1); batch pairs element i with inverse i and output i (U4); both variants convert with fp.BytesLE then fr.SetBytesLE (N2); length mismatch errors before indexing (LG); elements not written (W1). The numeric value and injectivity are not decided.",
-		RuleN1N2, RuleBatchIdx, RuleG6, RuleD9(mapSetters), RuleD10, RuleLG([][4]string{{"banderwagon", "BatchMapToScalarField", "result", "elements"}}), RuleW1(nameHas("MapToScalarField", "mapToBaseField", "fp.BytesLE", "fp.BatchInvert"), 4))
+		RuleN1N2, RuleBatchIdx, RuleG6, RuleR2, RuleD9(mapSetters), RuleD10, RuleLG([][4]string{{"banderwagon", "BatchMapToScalarField", "result", "elements"}}), RuleW1(nameHas("MapToScalarField", "mapToBaseField", "fp.BytesLE", "fp.BatchInvert"), 4))
 	Props["C17"] = spec("static decision of the structural clauses (DESIGN 4 C17): every loop of the square-root code is a counted loop left only through its bound test and every block of the discrete log is accumulated (R1); the addition chain computes z^((Q-1)/2), z^Q, z^((Q+1)/2) for the odd part Q of p-1 and the block parameters are consistent (K5); SqrtPrecomp works on a private copy, returns nil only when the dyadic reconstruction fails and zero for zero; GetPointFromX/computeY propagate nil exactly and return (x, y) (Y2); sign selection correct on all four combinations (D4); curve equation uses A and D in the right places (Y1); arguments not written (W1). The dyadic discrete-log reconstruction (table contents) is not decided.",
 		RuleK5, RuleY1Y2, RuleR1, RuleD4("sign"), RuleG6, RuleW1(nameHas("bandersnatch/fp.", "bandersnatch.GetPointFromX", "bandersnatch.computeY"), 6))
 	Props["C18"] = spec("static decision of the structural clauses (DESIGN 4 C18): writers and readers of the two concatenated tables agree on layout, midpoints and lengths (M7); every index in DivideOnDomain/ComputeBarycentricCoefficients is of the indexed array's domain (M6); sign handling exhaustive and consistent, orientation of numerator and denominator agree (D4 absInt, Q1); self term accumulated only for i != index with the ratio A'(index)/A'(i) and q[i] of the same i (Q2); f and the tables are not written (W1,W3). That the formulas are the polynomial quotient/interpolation and the table contents are not decided.",
-		RuleQ1Q2, RuleD4("absint"), RuleM7, RuleM6, RuleW3, RuleW1(nameHas("ipa.PrecomputedWeights", "ipa.absInt", "ipa.computeBarycentricWeightForElement", "ipa.NewPrecomputedWeights"), 5))
+		RuleQ1Q2, RuleD4("absint"), RuleM7, RuleM12, RuleM6, RuleW3, RuleW1(nameHas("ipa.PrecomputedWeights", "ipa.absInt", "ipa.computeBarycentricWeightForElement", "ipa.NewPrecomputedWeights"), 5))
 	Props["C19"] = spec("static decision of the structural clauses (DESIGN 4 C19): all-or-nothing normalisation (U1); written elements are the de-duplicated ones, filled from all inputs, inverses paired by index (U2,U4,G1); batch and single encoders agree in sign convention and normalisation (E2,E3), uncompressed layout x@0,y@32 in both and in the trusted decoder (U3); batch and single map-to-field agree (N1,N2); inputs other than the normalised elements not written (W1); executor use joined before return (G2). Value equality position by position is not decided. The parallel executor these routines run on is checked with them: join discipline, non-empty ranges, divisors, and the partition of [0,n) (G7, I1, I2, S2).",
-		RuleU1, RuleU3, RuleE2E3, RuleN1N2, RuleBatchIdx, RuleG1, RuleG2, RuleZ1, RuleI1, RuleI2, RuleG7, RuleS2, RuleW1(nameHas("banderwagon.Batch", "banderwagon.ElementsToBytes", "banderwagon.Element).BytesUncompressedTrusted", "banderwagon.Element).Normalize", "banderwagon.batch"), 8))
+		RuleU1, RuleU3, RuleE2E3, RuleN1N2, RuleBatchIdx, RuleG1, RuleG2, RuleZ1, RuleI1, RuleI2, RuleG7, RuleS2, RuleR2, RuleW1(nameHas("banderwagon.Batch", "banderwagon.ElementsToBytes", "banderwagon.Element).BytesUncompressedTrusted", "banderwagon.Element).Normalize", "banderwagon.batch"), 8))
 	Props["C09"] = spec("static decision of the structural clauses of the variable-base MSM (DESIGN 4 C09): points and scalars stay paired through every wrapper, split and chunk (M1); Montgomery flag and task count reach the inner routine (M2); every selectable window width has an implementation with matching constants and array sizes (M3); every chunk is produced exactly once and consumed exactly once, chunk j through channel j (M4); bucket/table indexes v-1 are guarded (M5); length mismatch is an error before any slicing (LG); the sizing loop terminates (T1); goroutines write only their own slots, are joined, channels fit (G1-G5); inputs are not written (W1). The bucket arithmetic and digit recoding are not decided. The parallel executor these routines run on is checked with them: join discipline, non-empty ranges, divisors, and the partition of [0,n) (G7, I1, I2, S2).",
 		RuleG7, RuleI1, RuleI2, RuleS2, RuleM1, RuleM1b, RuleM2, RuleM3, RuleM4, RuleM5, RuleM8, RuleM10, RuleR2, RuleT1, RuleD9(msmOutputs), RuleLG([][4]string{{"bandersnatch", "MultiExp", "points", "scalars"}, {"ipa", "commit", "groupElements", "polynomial"}}), RuleLGOwn([][5]string{{"banderwagon", "Element", "MultiExp", "points", "scalars"}}), RuleG1, RuleG2, RuleG3, RuleG4, RuleG5, RuleW1(nameHas("bandersnatch.msm", "bandersnatch.MultiExp", "bandersnatch.partitionScalars", "banderwagon.Element).MultiExp", "ipa.MultiScalar", "ipa.commit", "batchProjToAffine"), 30))
-	Props["C15"] = spec("static decision of the structural clauses of scalar-field arithmetic (DESIGN 4 C15): Cmp and Equal read limbs only in same-index comparisons and are right on all 81 limb orderings (O1); every modulus-derived constant equals the value computed from the decimal modulus (K1), limb k meets limb k in every carry chain, cascade and Montgomery round (K2), operands are not written (W1). Numeric correctness of the algorithms is not decided.",
-		RuleK1K2, RuleAsm, RuleZ1, RuleO1, RuleT2, RuleW5, RuleW1(nameHas("bandersnatch/fr."), 40))
+	Props["C15"] = spec("static decision of the structural clauses of scalar-field arithmetic (DESIGN 4 C15): Cmp and Equal read limbs only in same-index comparisons and are right on all 81 limb orderings (O1); every modulus-derived constant equals the value computed from the decimal modulus (K1), limb k meets limb k in every carry chain, cascade and Montgomery round (K2), operands are not written (W1). Numeric correctness of the algorithms is not decided. An OR over the limbs of a value is compared only with zero (K8).",
+		RuleK1K2, RuleK8, RuleAsm, RuleZ1, RuleO1, RuleT2, RuleW5, RuleW1(nameHas("bandersnatch/fr."), 40))
 	Props["C06"] = spec("static decision of the decoder's structural clauses (DESIGN 4 C06): no untrusted entry point reaches an unchecked or reducing decoder (D1, D3); on the untrusted path success is dominated by exact length, canonical x, on-curve, subgroup test on the same x, and y-bytes equality (D2), and the exported validating decoder SetBytes is nothing but that decode: success only behind its nil-error edge, no other write of the receiver (D12); the subgroup decision accepts exactly Legendre=+1 of 1-a*x^2 (D4); errors are propagated (D7); decoders do not write their buffer (W1). Square-root and Legendre arithmetic not decided. The point recovery the decoders rest on is checked with them: GetPointFromX returns exactly computeY's root for the requested sign or nil (Y1, Y2, D4 sign).",
 		RuleD1, RuleD2D3, RuleD12, RuleY1Y2, RuleD4("sign"), RuleD5Point, RuleD11(atomicDecoders), RuleD4("legendre"), RuleD9(pointSetters), RuleD7(decoderFns, 6), RuleD8([][3]string{{"banderwagon", "Element", "setBytes"}, {"banderwagon", "Element", "SetBytesUncompressed"}}), RuleW1(nameHas("banderwagon.Element).SetBytes", "banderwagon.Element).setBytes", "common.Read", "subgroupCheck", "GetPointFromX", "computeY", "SqrtPrecomp"), 8))
 	Props["C10"] = spec("static decision of the (de)serialisation structure (DESIGN 4 C10): reader and writer agree on field order, counts and encoding kinds and with the protocol constants (D5); every point goes through the validating decoder and the scalar through the canonical one whose decision accepts exactly values < r (D1, D4); the EOF probe constrains the byte count (D6); every error on the read and write paths is tested and returned (D7); Write does not modify the proof (W1). Value-level round trip not decided.",
@@ -85,9 +85,15 @@ func init() {
 	Props["C16"] = spec("static decision of the scalar-encoding structure (DESIGN 4 C16): no decoder writes the slice it is given (W1); the canonical decoder accepts exactly Cmp(value, r) = -1 on the integer built from the input (D4); SetBigInt's fast path / zero / reduce decision is exhaustive and correct on all 9 outcomes (D4). Mod and Montgomery arithmetic not decided.",
 		RuleW1(nameHas("fr.Element).Set", "fr.Element).set", "common.ReadScalar", "fr.Element).Bytes", "fr.Element).Marshal"), 10), RuleD4("canonical", "setbigint"), RuleD9(frSetters), RuleD10, RuleG6, RuleK4, RuleK1K2, RuleTrust)
 	Props["C02"] = spec("static decision of the structural soundness clauses (DESIGN 4 C02): the IPA vector helpers (V1-V4), the verifier-side weight table (M7) and Cmp (O1) as shared mechanisms; accept only from the group-equation comparison (F5), shape checks dominate acceptance and the indexings they protect (F6), every statement/proof component is absorbed with its own index before acceptance (F3,F4), prover/verifier/spec schedules agree (F1,F2), Equal rejects the all-zero pseudo-point on all 16 outcomes (E1,E4). The verification equation itself is not decided.",
-		bundle([]Rule{RuleF1F2(), RuleF3, RuleF4(), RuleF5, RuleF6, RuleF7, RuleE1, RuleK6, RulePW}, challengeScalarDeps, bvectorDeps, []Rule{RuleM7Verifier, RuleQ3}, vectorDeps)...)
+		bundle([]Rule{RuleF1F2(), RuleF3, RuleF4(), RuleF5, RuleF6, RuleF7, RuleE1, RuleK6, RulePW, RuleX1}, challengeScalarDeps, bvectorDeps, []Rule{RuleM7Verifier, RuleM12Verifier, RuleQ3}, vectorDeps)...)
 	Props["C13"] = spec("static may-write analysis (DESIGN 3.1): for every function of the module, the caller-visible locations it may write are within tables/purity.tsv; globals written only by initialisers; configuration fields only by constructors; commitments only through BatchNormalize. Value-level clause ('Cs stay Equal') not decided.",
 		RuleW1(nil, 90), RuleW2(30), RuleW3, RuleW4, RuleTrust)
 	Props["C14"] = spec("static decision of the transcript's structural clauses (DESIGN 4 C14): unconditional complete appends, challenge hash-chain ordering and dataflow, canonical encodings absorbed, protocol label first (F7); transcript methods write only their receiver, never labels/messages (W1). SHA-256 and the numeric reduction are not decided.",
 		bundle([]Rule{RuleF7, RuleW1(nameHas("common.Transcript", "common.NewTranscript"), 5)}, challengeScalarDeps)...)
+	// pool discipline and hygiene (G6) concern every routine that takes scratch memory from a sync.Pool, wherever
+	// someone introduces one: it runs with every property
+	for _, id := range []string{"C04", "C05", "C06", "C07", "C08", "C09", "C13", "C15", "C18", "C19", "C20"} {
+		Props[id].Rules = append(Props[id].Rules, RuleG6)
+		Props[id].Explanation += " Objects taken from a sync.Pool are not used after Put, put back at most once, and completely overwritten before they are read (G6)."
+	}
 }
